@@ -32,15 +32,20 @@ MATCHING = [
 ]
 
 
+METHOD_NAMES = set()
+
+
 def is_eval_site(call):
     """X(receiver, context, engine): evaluation of a (possibly) Expression
     value."""
     if len(call.args) != 3 or call.keywords:
         return False
     f = call.func
-    if isinstance(f, ast.Attribute) and f.attr in (
+    if isinstance(f, ast.Attribute) and (f.attr in (
             'check', 'convert', '_call', 'get_delegate', 'map_args',
-            'collect_functions'):
+            'collect_functions') or f.attr in METHOD_NAMES):
+        # a method of a class of the repository, not the call of a value
+        # that may be an Expression
         return False
     c, e = call.args[1], call.args[2]
     if not (isinstance(c, ast.Name) and c.id in CTXISH):
@@ -947,6 +952,9 @@ def check_lambda_evaluates_every_time(repo, rep):
 def run(repo, rep):
     from sa import resmodel
     resmodel.install(repo, rep)
+    METHOD_NAMES.clear()
+    METHOD_NAMES.update(n for ci in repo.all_classes() for n in ci.methods
+                        if not n.startswith('__'))
     rep.rule('R11a', 'ONE-SWEEP: in choose_overload eager arguments are '
              'evaluated by exactly one index-ordered traversal of the '
              'positional and one of the keyword arguments, outside every '
@@ -979,6 +987,17 @@ def run(repo, rep):
     rep.extra_cov['evaluation_sites'] = [
         '%s: %s' % (fi.key, model.norm(c)) for fi, c in sites]
     rep.floor('expression evaluation sites', len(sites), 9)
+    rep.rule('R11h', 'SWEEP-SITUATIONS: in every call situation each eager '
+             'argument is evaluated exactly once, after all candidates were '
+             'mapped and before any delegate is requested, positional '
+             'before keyword; lazy arguments are not evaluated and '
+             'delegates receive values for eager, expressions for lazy '
+             'arguments')
+    resmodel.report_situations(repo, rep, 'R11h', (
+        'single-sweep', 'sweep-before-delegates', 'sweep-after-mapping',
+        'positional-before-keyword', 'lazy-untouched',
+        'delegates-get-values', 'no-evaluation-when-unmatched'),
+        'the argument sweep')
     resmodel.guarded(repo, rep, 'R11a', check_r11a, repo, rep)
     resmodel.guarded(repo, rep, 'R11f', check_lazy_keys, repo, rep)
     check_lambda_evaluates_every_time(repo, rep)
